@@ -214,7 +214,9 @@ fn run_case(line: &str) -> String {
 
 // ---------- generation ----------
 const TOKENS: &[&str] = &["a", "b", "c", "", "~", "/", "a/b", "m~n", "~0", "~1", "0", "1", "2", "01", "+1", "00", "+", "-0", "+0",
-    "18446744073709551615", "18446744073709551616", "000000000000000000001", "\u{e9}", "x y", "\"q\"", "path", "status"];
+    "18446744073709551615", "18446744073709551616", "000000000000000000001", "\u{e9}", "x y", "\"q\"", "path", "status",
+    // escapes and multi-byte characters in one token (the escape-handling path must keep the UTF-8 intact)
+    "caf\u{e9}/au~lait", "\u{e9}~", "~\u{4e2d}/\u{1f600}", "/\u{e9}"];
 const PLAIN: &[&str] = &["a", "b", "c", "0", "1", "01", "+1", "2"];
 
 fn esc(t: &str) -> String { t.replace('~', "~0").replace('/', "~1") }
